@@ -7,7 +7,7 @@ import sys
 sys.path.insert(0, ".")
 from harness import common, ctrans, nptrans  # noqa: E402
 
-MODS = [a for a in sys.argv[1:]] or ["c01", "c02", "c03", "c05", "c06", "c07", "c08", "c10", "c15", "c17", "c18", "c19"]
+MODS = [a for a in sys.argv[1:]] or ["c01", "c02", "c03", "c05", "c06", "c07", "c08", "c09", "c10", "c15", "c17", "c18", "c19"]
 
 
 def fail(*a, **k):
